@@ -642,23 +642,36 @@ def oracle(ctx):
         ctx.fail(f"oracle:out-of-range:{key}:accepted", f"{key} accepts s outside [0,1] and returns {type(r).__name__}", replay)
 
     def pose_interp(cls, thunk, ref_ok, long_arc, rps, d):
-        """a pose-class interp call.  The class re-validates the matrix trinterp computed with its constructor (100 eps); on a long arc
-        near antipodal the (1e-6-correct) result fails that test: keyed by that root cause, only when trinterp itself was right"""
+        """a pose-class interp call: since fix d3a2973 the result is built with check=False, so it must return whatever trinterp computes
+        (it used to re-validate at 100 eps and reject / drop correct long-arc values); any exception is a finding"""
         try:
             X = thunk()
         except Exception as ex:  # noqa
             kind = type(ex).__name__
-            if kind == 'ValueError' and 'invalid value' in str(ex) and long_arc and ref_ok:
-                ctx.fail('oracle:pose.interp:long-arc:constructor-rejects-result',
-                         f"{cls}.interp raises ValueError ({ex}): base.trinterp's result is right to 1e-6 but its orthogonality defect exceeds the "
-                         f"constructor's 100 eps; q0.q1 = {d:g}", dict(rps, site=cls))
-            else:
-                ctx.fail(f"oracle:{cls}.interp:{'long-arc' if long_arc else 'short-arc'}:raises-{kind}", f"{cls}.interp raises {kind}: {ex}; q0.q1 = {d:g}", rps)
+            ctx.fail(f"oracle:{cls}.interp:{'long-arc' if long_arc else 'short-arc'}:result-not-returned:{kind}", f"{cls}.interp raises {kind}: {ex}; q0.q1 = {d:g}", rps)
             return None
         if any(x is None for x in X.data):
-            ctx.fail(f"oracle:{cls}.interp:holds-None", f"{cls}.interp returns an object holding None", rps)
+            ctx.fail(f"oracle:{cls}.interp:result-holds-None", f"{cls}.interp returns an object holding None", rps)
             return None
         return X
+
+    def element_access(cls, Xv, long_arc, rp, d):
+        """the sequence returned for a vector of s must be usable as a sequence: X[k], iteration"""
+        ctx.count('oracle:vector-s:element-access')
+        try:
+            els = [Xv[k_] for k_ in range(len(Xv))]
+            ok = all(np.array_equal(e.A, a) for e, a in zip(els, Xv.data))
+            if not ok:
+                ctx.fail(f"oracle:vector-s:{cls}.interp:element-differs", f"{cls}.interp(vector s)[k] is not the k-th value", rp)
+        except Exception as ex:  # noqa
+            kind = type(ex).__name__
+            if kind == 'ValueError' and long_arc:
+                ctx.fail('oracle:pose.interp:long-arc:sequence-element-access-revalidates',
+                         f"{cls}.interp(vector s) returns the right values, but X[k] / iteration / slicing of the returned sequence raises ValueError ({ex}): "
+                         f"SMUserList.__getitem__ rebuilds the element with check=True; q0.q1 = {d:g}", dict(rp, site=cls))
+            else:
+                ctx.fail(f"oracle:vector-s:{cls}.interp:{'long-arc' if long_arc else 'short-arc'}:element-access-raises-{kind}",
+                         f"indexing the result of {cls}.interp(vector s) raises {kind}: {ex}", rp)
 
     # ------------------------------------------------------------------ 3-D
     N = ctx.n(250, 6000)
@@ -823,9 +836,11 @@ def oracle(ctx):
                 if ok:
                     for k_, s in enumerate(sv):
                         Mk = base.trinterp(E0 if with_start else None, E1, float(s))
-                        ok = ok and np.max(np.abs(Xv[k_].A - Mk)) <= 1e-9 * scale_t
+                        ok = ok and Xv.data[k_] is not None and np.max(np.abs(Xv.data[k_] - Mk)) <= 1e-9 * scale_t
                 if not ok:
                     ctx.fail(f'oracle:vector-s:{cls}.interp', f"{cls}.interp(vector s) is not the sequence of the scalar results", rp)
+                else:
+                    element_access(cls, Xv, d < 0, dict(rp, s=[float(x) for x in sv]), d)
         if it % 10 == 0:
             lq1 = base.r2q(R1)
             try:
@@ -953,9 +968,11 @@ def oracle(ctx):
         Xv = call('SE2.interp(vector)', lambda: (SE2(T1, check=False).interp(sv, start=SE2(T0, check=False)) if with_start else SE2(T1, check=False).interp(sv)), rp)
         if Xv is not None:
             ok = isinstance(Xv, SE2) and len(Xv) == len(sv) and all(
-                np.max(np.abs(Xv[k_].A - base.trinterp2(T0 if with_start else None, T1, float(s)))) <= 1e-9 * scale_t for k_, s in enumerate(sv))
+                np.max(np.abs(Xv.data[k_] - base.trinterp2(T0 if with_start else None, T1, float(s)))) <= 1e-9 * scale_t for k_, s in enumerate(sv))
             if not ok:
                 ctx.fail('oracle:vector-s:SE2.interp', "SE2.interp(vector s) is not the sequence of the scalar results", rp)
+            else:
+                element_access('SE2', Xv, False, rp, 1.0)
 
     # ------------------------------------------------------------------ arguments that are not poses
     R3, T4 = rot_from_axis_angle([0, 0, 1.0], 0.3), np.eye(4)
